@@ -52,6 +52,13 @@ def lossy_steps(fn: ast.AST, key: ast.expr) -> List[str]:
     out: List[str] = []
     seen = set()
     todo = [key]
+    # parameters declared as mappings (a grammar is a dict): iterating one - tuple(g), sorted(g), frozenset(g), g.keys() - yields its KEYS only
+    mapping_params = set()
+    if isinstance(fn, (ast.FunctionDef, ast.AsyncFunctionDef)):
+        for a in fn.args.args + fn.args.kwonlyargs:
+            ann = src(a.annotation).replace("Optional[", "").strip('"') if a.annotation is not None else ""
+            if ann.split("[")[0].split(".")[-1] in ("Grammar", "CanonicalGrammar", "Dict", "dict", "Mapping", "OrderedDict", "FrozenCanonicalGrammar"):
+                mapping_params.add(a.arg)
     while todo:
         e = todo.pop()
         for n in ast.walk(e):
@@ -60,6 +67,10 @@ def lossy_steps(fn: ast.AST, key: ast.expr) -> List[str]:
                     out.append(src(n)[:50])
                 elif isinstance(n.func, ast.Name) and n.func.id in LOSSY_FUNCS:
                     out.append(src(n)[:50])
+                elif isinstance(n.func, ast.Name) and n.func.id in ("tuple", "list", "set", "frozenset", "sorted") and len(n.args) == 1 and isinstance(n.args[0], ast.Name) and n.args[0].id in mapping_params:
+                    out.append(f"{src(n)[:40]} (keys of the mapping only)")
+                elif isinstance(n.func, ast.Attribute) and n.func.attr == "keys" and isinstance(n.func.value, ast.Name) and n.func.value.id in mapping_params:
+                    out.append(f"{src(n)[:40]} (keys of the mapping only)")
             if isinstance(n, ast.Name) and n.id not in seen:
                 seen.add(n.id)
                 todo.extend(binds.get(n.id, []))
